@@ -59,6 +59,14 @@ def run_input(args):
             out['problem'] = 'diagnostics were reported but the program printed %r' % r.out[:80]
         elif compiled:
             out['problem'] = 'diagnostics were reported after the compile hook saw a finished module'
+    elif (r.outcome == 'ok' or r.outcome.startswith('error:')) and name.startswith('boundary:'):
+        want = gen_mutate.EXPECT.get(name.split(':', 1)[1])
+        got = [l for l in r.out.split('\n') if l]
+        if want is not None and r.outcome != 'ok':
+            got.append('<%s>' % r.outcome)
+        if want is not None and got != want:
+            out['problem'] = ('front end accepted the program but built one that does not behave as written: '
+                              'prints %r, the text says %r' % (got[:4], want))
     if out['problem'] is None and out.get('skip') is None and os.path.exists(p) and not out.get('forward'):
         os.unlink(p)
     return out
